@@ -351,27 +351,19 @@ Qed.
 
 Lemma esc_last_bs p c : (last (esc p c) 0 =? 92) = (c =? 92).
 Proof.
+  destruct (N.eqb_spec c 92) as [->|Hc]; [reflexivity|].
   destruct (esc_shape p c) as [(-> & H1 & H2 & H3)|(e & t & -> & He & Ht & H34 & H92)].
-  - reflexivity.
+  - cbn [last]. lia.
   - destruct t as [|x t'].
-    + cbn [last]. destruct (N.eqb_spec e 92) as [->|Hne].
-      * destruct (H92 eq_refl) as [-> _]. reflexivity.
-      * unfold escape_letters in He. cbn [In] in He.
-        destruct (N.eqb_spec c 92) as [->|]; [|reflexivity].
-        (* c = 92 forces esc = [92;92] *)
-        exfalso. assert (E : esc p 92 = [92; 92]) by reflexivity.
-        match goal with H : esc p 92 = _ |- _ => rewrite E in H; inversion H; congruence end.
+    + cbn [last]. destruct (N.eqb_spec e 92) as [->|Hne]; [|reflexivity].
+      destruct (H92 eq_refl) as [-> _]. congruence.
     + assert (Hl : hexchar (last (x :: t') 0) = true).
       { assert (In (last (x :: t') 0) (x :: t')).
         { clear. generalize x. induction t' as [|y t IH]; intros z; [left; reflexivity|].
           right. apply (IH y). }
         rewrite Forall_forall in Ht. apply Ht. assumption. }
       change (last (92 :: e :: x :: t') 0) with (last (x :: t') 0).
-      apply hexchar_not in Hl. destruct Hl as (_ & Hl & _).
-      replace (last (x :: t') 0 =? 92) with false by lia.
-      destruct (N.eqb_spec c 92) as [->|]; [|reflexivity].
-      exfalso. assert (E : esc p 92 = [92; 92]) by reflexivity.
-      match goal with H : esc p 92 = _ |- _ => rewrite E in H; inversion H end.
+      apply hexchar_not in Hl. lia.
 Qed.
 
 Theorem quote_body_ends_bs p s : ends_bs (quote_body p s) = ends_bs s.
@@ -398,8 +390,8 @@ Proof.
   intros Hnl. induction s as [|c s IH]; [intros []|].
   rewrite quote_body_cons. intros H. apply in_app_or in H. destruct H as [H|H]; [|auto].
   destruct (esc_shape p c) as [(E & H1 & H2 & H3)|(e & t & E & He & Ht & _)]; rewrite E in H.
-  - destruct H as [<-|[]]. congruence.
-  - destruct H as [H|[<-|H]]; [discriminate| |].
-    + unfold escape_letters in He. cbn [In] in He. lia.
+  - destruct H as [H|[]]. subst c. congruence.
+  - destruct H as [H|[H|H]]; [discriminate| |].
+    + subst e. unfold escape_letters in He. cbn [In] in He. lia.
     + rewrite Forall_forall in Ht. apply Ht, hexchar_not in H. lia.
 Qed.
